@@ -21,7 +21,7 @@ enum Piece {
     Esc(&'static str),
 }
 
-const PIECES: [Piece; 9] = [
+const PIECES: [Piece; 10] = [
     Piece::Lit("a"),
     Piece::Lit("b c"),
     Piece::Lit("é"),
@@ -31,8 +31,11 @@ const PIECES: [Piece; 9] = [
     Piece::Var("a.b"),
     Piece::Esc("v"),
     Piece::Var("s::é1"),
+    // never a script variable, but a variable of the process environment (set by the worker): it binds
+    // to nothing like any other undefined name
+    Piece::Var("C02_ENV_ONLY"),
 ];
-const SPREADS: [&str; 3] = ["v", "w", "u"];
+const SPREADS: [&str; 4] = ["v", "w", "u", "C02_ENV_ONLY"];
 const VSIGMA: [&str; 15] = ["a", " ", "\"", "\\", "#", "$", "{", "}", "%", "\n", "=", "é", "\t", "\r", "\u{a0}"];
 const VSPECIAL: [&str; 9] = ["${w}", "%{w}", "\\${w}", "${v}", "a  b", " a", "a ", "  ", "a b c"];
 const WVALUES: [&str; 8] = ["W", "", "p q", "${v}", "%{v}", "\"x y\"", "#", "\\"];
@@ -306,6 +309,7 @@ fn rebinding(w: &mut Worker) {
 
 pub fn worker(w: &mut Worker) {
     let tier = w.tier;
+    std::env::set_var("C02_ENV_ONLY", "leaked from the environment");
     scale(w);
     rebinding(w);
     let mut rig = Rig::new();
